@@ -109,8 +109,9 @@ int sm9_do_sign(const SM9_SIGN_KEY *key, const SM3_CTX *sm3_ctx, SM9_SIGNATURE *
 {
 	sm9_z256_t r;
 	sm9_z256_fp12_t g;
+	sm9_z256_fp12_t w;
 	uint8_t wbuf[32 * 12];
-	SM3_CTX ctx = *sm3_ctx;
+	SM3_CTX ctx;
 	SM3_CTX tmp_ctx;
 	uint8_t ct1[4] = {0,0,0,1};
 	uint8_t ct2[4] = {0,0,0,2};
@@ -130,10 +131,11 @@ int sm9_do_sign(const SM9_SIGN_KEY *key, const SM3_CTX *sm3_ctx, SM9_SIGNATURE *
 		//sm9_z256_from_hex(r, "00033C8616B06704813203DFD00965022ED15975C662337AED648835DC4B1CBE");
 
 		// A3: w = g^r
-		sm9_z256_fp12_pow(g, g, r);
-		sm9_z256_fp12_to_bytes(g, wbuf);
+		sm9_z256_fp12_pow(w, g, r);
+		sm9_z256_fp12_to_bytes(w, wbuf);
 
 		// A4: h = H2(M || w, N)
+		ctx = *sm3_ctx;
 		sm3_update(&ctx, wbuf, sizeof(wbuf));
 		tmp_ctx = ctx;
 		sm3_update(&ctx, ct1, sizeof(ct1));
@@ -152,6 +154,7 @@ int sm9_do_sign(const SM9_SIGN_KEY *key, const SM3_CTX *sm3_ctx, SM9_SIGNATURE *
 
 	gmssl_secure_clear(&r, sizeof(r));
 	gmssl_secure_clear(&g, sizeof(g));
+	gmssl_secure_clear(&w, sizeof(w));
 	gmssl_secure_clear(wbuf, sizeof(wbuf));
 	gmssl_secure_clear(&tmp_ctx, sizeof(tmp_ctx));
 	gmssl_secure_clear(Ha, sizeof(Ha));
